@@ -74,6 +74,9 @@ def gen_cases(ctx, n, maxdim):
             c["single_steps"] = [[1, f] for f in fs] + [[-1, f] for f in reversed(fs)]
             if r.random() < 0.5:
                 c["single_steps"] = [[-d, f] for d, f in c["single_steps"]]
+            if dim >= 2 and r.random() < 0.4:
+                # the third kinetic-energy kind (MCLMC's ESH dynamics) is only driven step by step
+                c["kind"] = "microcanonical"
         cases.append(c)
     return cases
 
@@ -96,6 +99,8 @@ def step_exprs(c, o, max_steps):
     pot = "(mk_pot %s %s %s)" % (qlist(c["prec"]), qlist(c["mu"]), qlit(c.get("quartic", 0.0)))
     lr = lowrank_expr(c)
     kind = 1 if c["kind"] == "exact_normal" else 0
+    if c["kind"] == "microcanonical":
+        return exprs, meta
     for d in o["draws"]:
         if not d.get("init"):
             continue
@@ -161,6 +166,43 @@ def oracle_reversible(c, d):
     return bad
 
 
+def esh_ref(g, p, s_):
+    n = len(g)
+    gn = math.sqrt(sum(x * x for x in g))
+    gh = [x / gn for x in g]
+    alpha = sum(a * b for a, b in zip(p, gh))
+    z = math.exp(-s_ * gn / (n - 1))
+    raw = [(1 - z) * (1 + z + alpha * (1 - z)) * a + 2 * z * b for a, b in zip(gh, p)]
+    rn = math.sqrt(sum(x * x for x in raw))
+    return [x / rn for x in raw]
+
+
+def oracle_micro(c, d):
+    """microcanonical kind: one step = ESH momentum half-update, drift by eps*sqrt(d), ESH half-update
+    (with the gradient at the new position) - recomputed in binary64 from the logged start state"""
+    bad = []
+    n = c["dim"]
+    pts = {0: d["init"]}
+    for lf in d["leapfrogs"]:
+        st_ = pts.get(lf["start_idx"])
+        pts[lf["idx"]] = lf
+        if st_ is None or lf["diverged"]:
+            continue
+        h = c["step_size"] * (lf["idx"] - lf["start_idx"]) * lf.get("factor", 1.0)
+        q0, p0, g0 = ([b2f(b) for b in st_[k]] for k in ("q", "v", "tg"))
+        g1 = [b2f(b) for b in lf["tg"]]
+        p1 = esh_ref(g0, p0, math.sqrt(n) * h / 2)
+        q1 = [a + h * math.sqrt(n) * b for a, b in zip(q0, p1)]
+        p2 = esh_ref(g1, p1, math.sqrt(n) * h / 2)
+        for name, want, got in (("whitened position", q1, lf["q"]), ("momentum", p2, lf["v"])):
+            for i, (a, b) in enumerate(zip(want, got)):
+                if abs(a - b2f(b)) > 1e-9 * (1 + abs(a)):
+                    bad.append("microcanonical step %d -> %d (factor %s): %s[%d] is %r, the ESH leapfrog gives %r" % (
+                        lf["start_idx"], lf["idx"], lf.get("factor", 1.0), name, i, b2f(b), a))
+                    return bad
+    return bad
+
+
 def oracle_point(c, p):
     """implementation-side consistency of one logged point: logdet, energy, index"""
     bad = []
@@ -202,6 +244,8 @@ def run(ctx):
         meta += m
         for d in o["draws"]:
             rb = oracle_reversible(c, d)
+            if c["kind"] == "microcanonical":
+                rb = rb + oracle_micro(c, d)
             if rb and nb < 3:
                 nb += 1
                 violation(ctx, "implementation violates C02: %s" % rb[0],
